@@ -27,13 +27,13 @@ FILES = {
     "pkg/runtime-tools/generate/generate.go": ["C13", "C03"],
     "pkg/api/adjustment.go": ["C13", "C03", "C02"],
     "pkg/api/update.go": ["C05", "C19"],
-    "pkg/api/helpers.go": ["C02", "C13", "C03"],
+    "pkg/api/helpers.go": ["C02", "C13", "C04", "C03"],
     "pkg/api/event.go": ["C15", "C06", "C17"],
     "pkg/api/resources.go": ["C13", "C03", "C04"],
     "pkg/api/hooks.go": ["C03", "C13"],
     "pkg/api/mount.go": ["C13", "C03"],
     "pkg/api/device.go": ["C13", "C03"],
-    "pkg/api/env.go": ["C13", "C03", "C02"],
+    "pkg/api/env.go": ["C13", "C04", "C03", "C02"],
     "pkg/api/plugin.go": ["C17", "C06"],
     "pkg/api/optional.go": ["C13", "C03", "C01"],
 }
